@@ -136,6 +136,7 @@ def run_hist(c):
     sac.CmdPeriod.free_servers = False
     mdl.NotificationCenter.clear()
     del st['queue'][:]
+    st['hook'] = None
     log = []
     funcs, acts, resps = {}, {}, {}
 
@@ -145,6 +146,9 @@ def run_hist(c):
         if fid not in funcs:
             def f(msg, time, addr, recv_port, _fid=fid):
                 log.append((st['cur'][0], _fid, list(msg), time, (addr.addr, addr.port), recv_port))
+                if st.get('hook'):                       # responder operations done by a handler (fused ops)
+                    h, st['hook'] = st['hook'], None
+                    h()
                 if _fid in raisers:                      # a user function that fails while handling the message
                     raise RuntimeError(f'callback {_fid} failed')
             funcs[fid] = f
@@ -191,12 +195,20 @@ def _run_ops(c, st, resps, user_fn, act_fn, log, udp):
     import time as _time
     rp, sac, mdl, osci, clk, main = st['rp'], st['sac'], st['mdl'], st['osci'], st['clk'], st['main']
     out = []
-    for op in c['ops']:
+    fuse = {a: b for a, b in c.get('fuse', [])}
+    skip = -1
+    for idx, op in enumerate(c['ops']):
         o = op[0]
+        if idx <= skip:
+            continue
+        if idx in fuse and not udp:
+            skip = fuse[idx]
+            out.extend(_recv_fused(st, c['ops'][idx:skip + 1], resps, user_fn, log))
+            continue
         try:
             if o == 'new':
                 _, rid, kind, path, src, port, tmpl, fid = op
-                src_id = None if src is None else st['NetAddr'](ip_str(src[0]), src[1])
+                src_id = _src_id(st, src)
                 at = None if tmpl is None else [tmpl_item(x) for x in tmpl]
                 ctor = rp.OscFunc if kind == 'E' else rp.OscFunc.matching
                 resps[rid] = ctor(user_fn(fid), path, src_id, port, arg_template=at)
@@ -248,6 +260,74 @@ def _run_ops(c, st, resps, user_fn, act_fn, log, udp):
         except Exception as e:
             out.append('err ' + type(e).__name__)
     return out
+
+
+def _src_id(st, src):
+    if src is None:
+        return None
+    a = st['NetAddr'](ip_str(src[0]), src[1])
+    if len(src) > 2:                 # an instance of a NetAddr SUBCLASS with the same host and port
+        from sc3.base.netaddr import BundleNetAddr
+        a = BundleNetAddr(a, send=False)
+    return a
+
+
+def _resp_op(st, resps, user_fn, op):
+    rp = st['rp']
+    try:
+        if op[0] == 'new':
+            _, rid, kind, path, src, port, tmpl, fid = op
+            at = None if tmpl is None else [tmpl_item(x) for x in tmpl]
+            ctor = rp.OscFunc if kind == 'E' else rp.OscFunc.matching
+            resps[rid] = ctor(user_fn(fid), path, _src_id(st, src), port, arg_template=at)
+        elif op[0] == 'enable':
+            resps[op[1]].enable()
+        else:
+            return 'bad-op'
+        return 'ok'
+    except Exception as e:
+        return 'err ' + type(e).__name__
+
+
+def _recv_fused(st, ops, resps, user_fn, log):
+    """ops = [recv B1, responder ops..., recv B2] with B1 = bundle(t, [m1]) and B2 = bundle(t, [m2, ...]):
+    ONE datagram bundle(t, [m1, m2, ...]) arrives; the responder ops are done by the first handler that m1
+    invokes (or, if m1 invokes none, between the dispatch of m1 and of m2).  Documented behaviour: the
+    messages of a bundle are dispatched one after the other, a responder enabled before a message is
+    dispatched receives it — so the outcome is that of the sequence of ops as written."""
+    clk, main = st['clk'], st['main']
+    _, now, off, port, d1, sender = ops[0][:6]
+    d2 = ops[-1][4]
+    data = bytes.fromhex(d1) + bytes.fromhex(d2)[16:]
+    main.elapsed_time = lambda _now=float.fromhex(now): _now
+    clk.SystemClock._elapsed_osc_offset = off
+    iface = st['Iface'](port)
+    del st['queue'][:]
+    mid = []
+
+    def hook():
+        for op in ops[1:-1]:
+            mid.append(_resp_op(st, resps, user_fn, op))
+    signal.signal(signal.SIGALRM, _alarm)
+    signal.setitimer(signal.ITIMER_REAL, 10.0)
+    try:
+        iface._handle_request(data, (ip_str(sender[0]), sender[1]))
+    except Hang:
+        return ['HANG'] * len(ops)
+    except BaseException as e:
+        return ['ESCAPED ' + type(e).__name__] * len(ops)
+    finally:
+        signal.setitimer(signal.ITIMER_REAL, 0)
+    items = list(st['queue'])
+    if not items:
+        return ['recv '] + ['not-run'] * (len(ops) - 2) + ['recv ']
+    st['hook'] = hook
+    first = _run_item(st, log, items[0])
+    if st['hook']:
+        st['hook'] = None
+        hook()
+    rest = [_run_item(st, log, it) for it in items[1:]]
+    return ['recv ' + first] + mid + ['recv ' + ' || '.join(rest)]
 
 
 def _run_item(st, log, item, norm=None):
@@ -388,8 +468,12 @@ def run_srvact(c):
     sac = st['sac']
     from sc3.synth import server as srv
 
-    class Reg(sac.ServerAction):
-        _servers = dict()
+    def fresh():
+        class Reg(sac.ServerAction):   # a registry of its own, like ServerBoot / ServerQuit / ServerTree
+            _servers = dict()
+        return Reg
+    regs = {0: fresh()}
+    Reg = regs[0]
 
     class FakeServer:
         def __init__(self, n):
@@ -415,7 +499,11 @@ def run_srvact(c):
     try:
         for op in c['ops']:
             try:
-                if op[0] == 'add':
+                if op[0] == 'sel':                    # go on with another registry (each has its own table)
+                    if op[1] not in regs:
+                        regs[op[1]] = fresh()
+                    Reg = regs[op[1]]; out.append('ok')
+                elif op[0] == 'add':
                     Reg.add(server(op[1]), act(op[2]), *op[3]); out.append('ok')
                 elif op[0] == 'remove':
                     Reg.remove(server(op[1]), act(op[2])); out.append('ok')
